@@ -1,7 +1,10 @@
 import RreModel.Proto
 import RreModel.C11.Spec
 /-
-Driver for C11.  obs := item;item;…  item := `<q|a>/<hex key>/<answer>/<fresh>/<hit>` (see harness/src/bin/c11.rs)
+Driver for C11.  obs := item;item;…  item := `<q|a|k>/<key>/<answer>/<fresh>/<hit>[/<flags>]` (see harness/src/bin/c11.rs;
+  the key is opaque here — hex of the text, or a digest of it for large stores; flags classify the input situation:
+  `N` negated goal, `n` negation partner asked earlier on identical facts, `p` same query earlier on permuted facts, `L` engine key
+  text > 1024 bytes, `c` same query earlier on facts that differ only behind byte 1024 of the engine key text)
   drv_c11 model  : case       ↦ `-` (the search is an abstract parameter of the model; the cache model is run in
                                  oracle mode on the observed keys with the observed fresh verdicts as `answer`)
   drv_c11 oracle : case | obs ↦ `ok <tags>` / `fail stale@<k>` (answer ≠ fresh engine's) / `fail cache-model@…`
@@ -15,10 +18,12 @@ structure Item where
   answer : String
   fresh : String
   hit : Bool
+  flags : String := ""
 
 def parseItem (s : String) : Option Item :=
   match s.splitOn "/" with
-  | [k, key, a, f, h] => some ⟨k != "q", k = "a", key, a, f, h = "1"⟩
+  | [k, key, a, f, h] => some ⟨k != "q", k = "a", key, a, f, h = "1", ""⟩
+  | [k, key, a, f, h, fl] => some ⟨k != "q", k = "a", key, a, f, h = "1", fl⟩
   | _ => none
 
 def memoOf (cfg : String) : Bool := cfg.endsWith "m1"
@@ -50,6 +55,11 @@ def oracleLine (line : String) : String :=
               ++ (if hits > 0 then ["cache_hit"] else [])
               ++ (if items.any (·.isAgg) then ["aggregate"] else [])
               ++ (if items.any (fun it => it.aggregate && !it.isAgg) then ["reconfigured"] else [])
+              ++ (if items.any (fun it => it.flags.contains 'N') then ["negated_goal"] else [])
+              ++ (if items.any (·.flags.contains 'n') then ["negation_pair_same_facts"] else [])
+              ++ (if items.any (·.flags.contains 'p') then ["requery_on_permuted_facts"] else [])
+              ++ (if items.any (·.flags.contains 'L') then ["key_over_1024"] else [])
+              ++ (if items.any (·.flags.contains 'c') then ["late_change_behind_1024"] else [])
               ++ (if distinctAns > 1 then ["answer_changes", "nontrivial"] else []))
       | none => "bad-input"
     | _ => "bad-input"
